@@ -49,7 +49,7 @@ func (r *RefWatcher) GetBlockHeight() (uint32, error) {
 	if r.HeightOverride != nil {
 		return r.HeightOverride()
 	}
-	return r.chain.Height(), nil
+	return r.chain.Height() + r.chain.HeightOffset, nil
 }
 func (r *RefWatcher) StartWatchingTxs() error { return nil }
 
@@ -80,13 +80,14 @@ func (r *RefWatcher) check() {
 	r.mu.Lock()
 	defer r.mu.Unlock()
 	tip := r.chain.heightLocked()
+	off := r.chain.HeightOffset
 	for id, reg := range r.conf {
 		if reg.queued {
 			continue
 		}
 		reg := reg
 		id := id
-		if uint64(tip) >= uint64(reg.start)+uint64(reg.window) {
+		if uint64(tip)+uint64(off) >= uint64(reg.start)+uint64(reg.window) {
 			reg.queued = true
 			delete(r.conf, id)
 			cb := r.confCb
